@@ -77,6 +77,8 @@ def gen_cases(rng, tier):
                 fields.append([t, srcs])
             c['fields'] = fields
             c['target'] = rng.pick(['concat', 'T'])
+            if c['selected'] and rng.chance(0.25):
+                c['target'] = rng.pick(c['selected'])      # the target takes over the name of a resource it absorbs
         elif k == 'duplicate':
             c['source'] = rng.pick(names + [None])
             c['target'] = rng.pick([None, 'copy_x'])
